@@ -11,7 +11,9 @@ EXTENDS Integers, Sequences, FiniteSets
 (*              message / bytes from the runtime decode with csproto to an *)
 (*              equal message                                              *)
 (*   szok   1 = Size = len(Marshal)     cls = MsgType's answer             *)
-(*   errc   the error is the documented sentinel (ErrMarshaler / ...)]     *)
+(*   errc   the error is the documented sentinel (ErrMarshaler / ...)      *)
+(*   stab   1 = the byte slices returned by earlier calls are still what   *)
+(*              they were (a result belongs to the caller)]                *)
 (***************************************************************************)
 Owned == {"gogo", "googlev1", "google"}
 
@@ -19,10 +21,11 @@ ExplainsDispatch(e) ==
   IF e.fl \in Owned
   THEN /\ e.st = "ok"
        /\ e.cls = e.fl
-       /\ CASE e.op = "Marshal"     -> e.x1 = 1 /\ e.szok = 1
+       /\ CASE e.op = "Marshal"     -> e.x1 = 1 /\ e.szok = 1 /\ e.stab = 1
             [] e.op = "Unmarshal"   -> e.x2 = 1
             [] e.op = "Size"        -> e.szok = 1
-            [] e.op \in {"Clone", "Equal", "Reset", "MarshalText", "GrpcMarshal", "GrpcUnmarshal", "GrpcName", "EqualCross", "EqualDiff"} -> e.same = 1
+            [] e.op = "GrpcMarshal" -> e.same = 1 /\ e.stab = 1
+            [] e.op \in {"Clone", "Equal", "Reset", "MarshalText", "GrpcUnmarshal", "GrpcName", "EqualCross", "EqualDiff"} -> e.same = 1
             [] e.op = "MsgType"     -> TRUE
             [] e.op = "MsgTypeConc" -> e.same = 1          \* every racing goroutine got the same, correct class
             [] OTHER -> FALSE
